@@ -4,6 +4,8 @@ import TnVerif.Lemmas.Sobol
 import TnVerif.Lemmas.SobolOpen
 import TnVerif.Props.C16
 import TnVerif.Lemmas.PartialSet
+import TnVerif.Model.DimDistMask
+import TnVerif.Lemmas.DimDistMask
 /-!
 # C09 — Sobol indices equal their variance-decomposition definition
 
@@ -1375,5 +1377,235 @@ example := dimension_distribution_sum exS exMargs 1 (3 / 2) (4 / 5) 1 exS_wf rfl
 example := mean_dimension_eq_sum exS exMargs 1 (3 / 2) (4 / 5) 1 exS_wf rfl exS_contract exS_contract2
 
 end nonvacuous
+
+/-! ## `tn.dimension_distribution` restricted to a mask (anova.py:209-213) -/
+section dimension_mask
+variable [Field R]
+
+/-- entry `k` of the **dimension distribution restricted to a mask** `μ` over the `2^N` tuples of variables: the
+    `μ`-weighted variance components of the tuples with exactly `k` variables, divided by the `μ`-weighted sum of the
+    variance components of ALL tuples (both under the same marginals `ws`).  For a 0/1 mask: `dimDistMask_zero_one`. -/
+def dimDistMask (ws : List (Nat → R)) (ns : List Nat) (f : List Nat → R) (μ : List Nat → R) (k : Nat) : R :=
+  boxSum (List.replicate ns.length 2) (fun u => if u.sum = k then μ u * varcomp ws ns f u else 0)
+    / boxSum (List.replicate ns.length 2) (fun u => μ u * varcomp ws ns f u)
+
+/-- for a 0/1 mask: (sum of the variance components of the tuples `u` with `|u| = k` and `M(u) = 1`) divided by
+    (sum of the variance components of all tuples with `M(u) = 1`) -/
+theorem dimDistMask_zero_one [DecidableEq R] (ws : List (Nat → R)) (ns : List Nat) (f : List Nat → R) (μ : List Nat → R)
+    (k : Nat) (h01 : ∀ u, inShape u (List.replicate ns.length 2) → μ u = 0 ∨ μ u = 1) :
+    dimDistMask ws ns f μ k
+      = boxSum (List.replicate ns.length 2) (fun u => if u.sum = k ∧ μ u = 1 then varcomp ws ns f u else 0)
+        / boxSum (List.replicate ns.length 2) (fun u => if μ u = 1 then varcomp ws ns f u else 0) := by
+  unfold dimDistMask
+  congr 1
+  · apply boxSum_congr_in; intro u hu
+    rcases h01 u hu with h | h <;> simp [h]
+  · apply boxSum_congr_in; intro u hu
+    rcases h01 u hu with h | h <;> simp [h]
+
+/-- **the restricted dimension distribution sums to 1** (entries `1..N`) as soon as the mask-weighted variance is not
+    zero.  No hypothesis on `μ(∅)`: the empty tuple has no variance (`varcomp_empty`), so it neither contributes to the
+    denominator nor is anything lost by dropping entry 0. -/
+theorem dimDistMask_sum (ws : List (Nat → R)) (ns : List Nat) (f : List Nat → R) (μ : List Nat → R)
+    (hM : boxSum (List.replicate ns.length 2) (fun u => μ u * varcomp ws ns f u) ≠ 0) :
+    (∑ k ∈ range ns.length, dimDistMask ws ns f μ (k + 1)) = 1 := by
+  unfold dimDistMask
+  simp only [div_eq_mul_inv]
+  rw [← Finset.sum_mul, ← boxSum_sum]
+  have e : boxSum (List.replicate ns.length 2)
+      (fun u => ∑ k ∈ range ns.length, if u.sum = k + 1 then μ u * varcomp ws ns f u else 0)
+      = boxSum (List.replicate ns.length 2) (fun u => μ u * varcomp ws ns f u) := by
+    apply boxSum_congr_in; intro u hu
+    have := sum_by_size ws ns f (fun _ => μ u) u hu
+    simp only [mul_ite, mul_zero] at this
+    exact this
+  rw [e, mul_inv_cancel₀ hM]
+
+/-- the hypothesis of `dimDistMask_sum` is needed: under a mask that selects nothing the entries are all `0/0`
+    (Python: `nan`; field convention `x/0 = 0`) and do not sum to 1 -/
+example (ws : List (Nat → R)) (ns : List Nat) (f : List Nat → R) :
+    (∑ k ∈ range ns.length, dimDistMask ws ns f (fun _ => 0) (k + 1)) = 0 := by
+  simp [dimDistMask, boxSum_zero]
+
+theorem suppL_idem (j : List Nat) : sobolSuppL (sobolSuppL j) = sobolSuppL j := by
+  unfold sobolSuppL
+  rw [List.map_map]
+  apply List.map_congr_left; intro i _
+  by_cases h : i = 0 <;> simp [h]
+
+/-- **`tn.dimension_distribution(t, mask=M, order=order, marginals=marginals)`** (model
+    `Tensor.dimensionDistributionMask`: `mask2 = tn.mask(weight_one_hot(N, order+1), M)`, entries `1..order` of
+    `sobol(t, mask2)` divided by `sobol(t, M)`, both calls with the same marginals) for a closed mask `M` over the `2^N` box
+    (`tn.symbols`, `~x`, `x | y`, `x & ~y`, `tn.only(x)` …): the routine does not fail and entry `k` (`k = 1..order`) is
+    `Σ_{|u| = k} M(u)·D_u / Σ_u M(u)·D_u`, `D_u` the variance component of the tuple `u` under the given marginals
+    (`dimDistMask`; for a 0/1 mask the two sums run over the tuples with `M(u) = 1`: `dimDistMask_zero_one`).
+    The entry 0 dropped by `[1:]` is the empty tuple's, whose variance component is 0 whatever `M(∅)` is; the
+    denominator `sobol(t, M)` contains the empty tuple with that same weight 0.
+    Hypotheses: total variance `D ≠ 0` (Python: `nan` otherwise); kernel contracts as in `dimension_distribution_eq`.
+    If `Σ_u M(u)·D_u = 0` Python returns `nan`/`inf` entries, the field convention `x/0 = 0` makes both sides 0. -/
+theorem dimension_distribution_mask_eq (t mask : Tensor R) (order : Nat) (margs : List (Option (Nat → R)))
+    (ρ sgn ρ2 sgn2 : R)
+    (ht : t.WF) (hk : mask.WF) (hl : margs.length = t.length) (hks : mask.shape = List.replicate t.length 2)
+    (hclosed : sobolLastRR mask = 1) (ho : 1 ≤ order)
+    (hc : sgn * ρ ^ t.length = boxSum t.shape (fun x => prodW (margsN t.shape margs) x * t.dense x))
+    (hc2 : sgn2 * ρ2 ^ 1 = 1 / sobolDen (margsN t.shape margs) t.shape t.dense)
+    (hD : sobolDen (margsN t.shape margs) t.shape t.dense ≠ 0) :
+    t.dimensionDistributionMask mask order margs ρ sgn ρ2 sgn2
+      = .ok ((List.range order).map fun k =>
+          dimDistMask (margsN t.shape margs) t.shape t.dense mask.dense (k + 1)) := by
+  have hN : 0 < t.length := by
+    cases t with
+    | nil => simp [Tensor.WF] at ht
+    | cons _ _ => simp
+  have hne : List.replicate t.length 2 ≠ [] := by
+    intro h; rw [List.replicate_eq_nil_iff] at h; omega
+  obtain ⟨w1, w2, w3, _⟩ := sobol_weightOneHot_spec (R := R) (order + 1) (List.replicate t.length 2) hne
+  generalize hoh : weightOneHot (R := R) (order + 1) (List.replicate t.length 2) = oh at w1 w2 w3
+  have hkl : mask.length = t.length := by
+    have := congrArg List.length hks; simpa [Tensor.shape] using this
+  have hohl : oh.length = t.length := by
+    have := congrArg List.length w2; simpa [Tensor.shape] using this
+  have hkne : mask ≠ [] := by intro h; rw [h] at hk; simp [Tensor.WF] at hk
+  have hohne : oh ≠ [] := by intro h; rw [h] at w1; simp [Tensor.WF] at w1
+  have hsl : oh.shape.length = mask.length := by rw [shape_length, hohl, hkl]
+  have hselw := sobol_WF_maskSel mask oh.shape hsl hk
+  have hsels := sobol_shape_maskSel mask oh.shape hsl
+  obtain ⟨hm2w, hm2s⟩ := C02.mul_wf_shape oh (Tensor.sobolMaskSel oh.shape mask) w1 hselw hsels.symm
+  have hm2 : dimDistMask2 t.length order mask = oh.mul (Tensor.sobolMaskSel oh.shape mask) := by
+    unfold dimDistMask2 Tensor.sobolMaskBy; rw [sobol_memo_eq, hoh]
+  have hselr : sobolLastRR (Tensor.sobolMaskSel oh.shape mask) = 1 := by
+    rw [sobol_lastRR_maskSel mask oh.shape hsl hkne]; exact hclosed
+  have hohr : sobolLastRR oh = order + 1 := by
+    cases hm : oh with
+    | nil => exact absurd hm hohne
+    | cons m ms =>
+      have hm1 : m.core.rl = 1 := by
+        cases hr : List.replicate t.length 2 with
+        | nil => exact absurd hr hne
+        | cons x xs =>
+          rw [hr, hm] at hoh; simp only [weightOneHot, List.cons.injEq] at hoh; rw [← hoh.1]; rfl
+      rw [← sobol_outRank_lastRR m ms 1, ← hm]; exact w3
+  have hm2r : sobolLastRR (oh.mul (Tensor.sobolMaskSel oh.shape mask)) = order + 1 := by
+    rw [dimdistmask_lastRR_mul oh _ w1 hselw hsels.symm, hohr, hselr, mul_one]
+  have hm2ne : oh.mul (Tensor.sobolMaskSel oh.shape mask) ≠ [] := by
+    intro h; rw [h] at hm2w; simp [Tensor.WF] at hm2w
+  have hm2open : (oh.mul (Tensor.sobolMaskSel oh.shape mask)).sobolOpenBond = true := by
+    apply dimdistmask_openBond_of _ hm2ne
+    · rw [sobol_mul_eq_zip _ _ hsels.symm]
+      apply dimdistmask_zip_notCP
+      rw [← hoh]; exact dimdistmask_oneHot_plain _ _
+    · rw [hm2r]; omega
+  have hm2l : (oh.mul (Tensor.sobolMaskSel oh.shape mask)).length = t.length := by
+    have := congrArg List.length hm2s; rw [shape_length, shape_length] at this; rw [this, hohl]
+  obtain ⟨v, hv, hvs, hvd⟩ := sobol_open_eq t _ margs true ρ sgn ρ2 sgn2 ht hm2w hl hm2l hm2open hc (fun _ => hc2)
+  have hmclosed : mask.sobolOpenBond = false := by
+    cases h : mask.sobolOpenBond with
+    | false => rfl
+    | true => have := sobol_openBond_lastRR mask h; omega
+  have hs := sobol_eq_subsets t mask margs true ρ sgn ρ2 sgn2 ht hk hl hks hmclosed hc
+  unfold Tensor.dimensionDistributionMask
+  simp only [hm2, hv, hs, hvs, hm2r, if_true, Nat.add_sub_cancel]
+  congr 1
+  apply List.map_congr_left; intro k hk'
+  have hk'' : k + 1 < order + 1 := by have := List.mem_range.mp hk'; omega
+  rw [hvd (k + 1) (by rw [hm2r]; exact hk'')]
+  simp only [if_true]
+  -- the numerator of the open-bond call, as a sum over the tuples of variables
+  have e : sobolNum (margsN t.shape margs) t.shape t.dense
+        (fun j => sobolOpenVal (oh.mul (Tensor.sobolMaskSel oh.shape mask))
+          (sobolClampL (oh.mul (Tensor.sobolMaskSel oh.shape mask)).shape j) (k + 1))
+      = sobolNum (margsN t.shape margs) t.shape t.dense
+        (fun j => (fun u => (if u.sum = k + 1 then (1 : R) else 0) * mask.dense u) (sobolSuppL j)) := by
+    unfold sobolNum
+    apply boxSum_congr_in; intro j hj
+    have hjl : j.length = t.length := by
+      have := inShape_length j _ hj; simpa [shape_length] using this
+    have hul : (sobolSuppL j).length = t.length := by rw [suppL_length, hjl]
+    have hcl : sobolClampL oh.shape j = sobolSuppL j := by rw [w2]; exact clampL_two t.length j hjl
+    beta_reduce
+    rw [hm2s, hcl]
+    rw [dimdistmask_openVal_mul oh _ w1 hselw hsels.symm hselr (sobolSuppL j) (by rw [hul, hohl]) (k + 1),
+      sobol_dense_maskSel mask _ (sobolSuppL j) hsl (by rw [hul, hkl]), hks, clampL_two t.length _ hul, suppL_idem,
+      ← hoh, openVal_oneHot (order + 1) t.length hN (sobolSuppL j) hul (k + 1) hk'']
+    by_cases h : k + 1 = (sobolSuppL j).sum
+    · simp [h]
+    · have h' : ¬ (sobolSuppL j).sum = k + 1 := fun hh => h hh.symm
+      simp [h, h']
+  rw [e, sobolNum_subsets _ _ _ (fun u => (if u.sum = k + 1 then (1 : R) else 0) * mask.dense u), sobolDen_subsets,
+    shape_length]
+  unfold dimDistMask
+  rw [shape_length]
+  have hD' : boxSum (List.replicate t.length 2) (varcomp (margsN t.shape margs) t.shape t.dense) ≠ 0 := by
+    rw [← shape_length t, ← sobolDen_subsets]; exact hD
+  rw [div_div_div_cancel_right₀ hD']
+  congr 1
+  apply boxSum_congr; intro u
+  split <;> simp
+
+/-- `dimension_distribution_mask_eq` for a **0/1 mask**: entry `k` is (the sum of the variance components of the tuples
+    `u` with `|u| = k` and `M(u) = 1`) divided by (the sum of the variance components of all tuples with `M(u) = 1`) -/
+theorem dimension_distribution_mask_eq_zero_one [DecidableEq R] (t mask : Tensor R) (order : Nat)
+    (margs : List (Option (Nat → R))) (ρ sgn ρ2 sgn2 : R)
+    (ht : t.WF) (hk : mask.WF) (hl : margs.length = t.length) (hks : mask.shape = List.replicate t.length 2)
+    (h01 : ∀ u, inShape u (List.replicate t.length 2) → mask.dense u = 0 ∨ mask.dense u = 1)
+    (hclosed : sobolLastRR mask = 1) (ho : 1 ≤ order)
+    (hc : sgn * ρ ^ t.length = boxSum t.shape (fun x => prodW (margsN t.shape margs) x * t.dense x))
+    (hc2 : sgn2 * ρ2 ^ 1 = 1 / sobolDen (margsN t.shape margs) t.shape t.dense)
+    (hD : sobolDen (margsN t.shape margs) t.shape t.dense ≠ 0) :
+    t.dimensionDistributionMask mask order margs ρ sgn ρ2 sgn2
+      = .ok ((List.range order).map fun k =>
+          boxSum (List.replicate t.length 2)
+              (fun u => if u.sum = k + 1 ∧ mask.dense u = 1 then varcomp (margsN t.shape margs) t.shape t.dense u else 0)
+            / boxSum (List.replicate t.length 2)
+              (fun u => if mask.dense u = 1 then varcomp (margsN t.shape margs) t.shape t.dense u else 0)) := by
+  rw [dimension_distribution_mask_eq t mask order margs ρ sgn ρ2 sgn2 ht hk hl hks hclosed ho hc hc2 hD]
+  congr 1
+  apply List.map_congr_left; intro k _
+  rw [dimDistMask_zero_one _ _ _ _ _ (by rw [shape_length]; exact h01), shape_length]
+
+/-- **the restricted dimension distribution `tn.dimension_distribution(t, mask=M)` sums to 1** (all `N` orders) when the
+    total variance and the variance under the mask, `Σ_u M(u)·D_u`, are not zero.  Nothing has to be assumed about `M(∅)`:
+    `[1:]` drops the entry of the empty tuple, but `sobol` has set the empty term of the ANOVA tensor to 0 beforehand, so that
+    entry is 0 and the denominator `sobol(t, M)` does not count the empty tuple either (see the example with `tn.true`,
+    where `M(∅) = 1`).  The hypothesis `hM` is needed (`dimDistMask` with the zero mask sums to 0, example above). -/
+theorem dimension_distribution_mask_sum (t mask : Tensor R) (margs : List (Option (Nat → R))) (ρ sgn ρ2 sgn2 : R)
+    (ht : t.WF) (hk : mask.WF) (hl : margs.length = t.length) (hks : mask.shape = List.replicate t.length 2)
+    (hclosed : sobolLastRR mask = 1)
+    (hc : sgn * ρ ^ t.length = boxSum t.shape (fun x => prodW (margsN t.shape margs) x * t.dense x))
+    (hc2 : sgn2 * ρ2 ^ 1 = 1 / sobolDen (margsN t.shape margs) t.shape t.dense)
+    (hD : sobolDen (margsN t.shape margs) t.shape t.dense ≠ 0)
+    (hM : boxSum (List.replicate t.length 2)
+      (fun u => mask.dense u * varcomp (margsN t.shape margs) t.shape t.dense u) ≠ 0) :
+    ∃ l, t.dimensionDistributionMask mask t.length margs ρ sgn ρ2 sgn2 = .ok l ∧ l.length = t.length ∧ l.sum = 1 := by
+  have hN : 1 ≤ t.length := by
+    cases t with
+    | nil => simp [Tensor.WF] at ht
+    | cons _ _ => simp
+  refine ⟨_, dimension_distribution_mask_eq t mask t.length margs ρ sgn ρ2 sgn2 ht hk hl hks hclosed hN hc hc2 hD,
+    by simp, ?_⟩
+  rw [list_sum_map_range]
+  have := dimDistMask_sum (margsN t.shape margs) t.shape t.dense mask.dense (by rw [shape_length]; exact hM)
+  rw [shape_length] at this
+  exact this
+
+/-! non-vacuity: `exS` (`f(x, y) = x(y+1) + y`), marginals `((1, 2), None)`, masks `x₀` (`exMask`) and `tn.true(2)`
+    (`exMask1`, which contains the empty tuple) -/
+theorem exMask1_varsum : boxSum (List.replicate exS.length 2)
+    (fun u => exMask1.dense u * varcomp (margsN exS.shape exMargs) exS.shape exS.dense u) = 5 / 4 := by
+  rw [← exS_var, sobolDen_subsets, shape_length]
+  apply boxSum_congr_in; intro u hu
+  obtain ⟨a, b, rfl⟩ := exBox u hu
+  rw [exMask1_dense, one_mul]
+
+example := dimension_distribution_mask_eq exS exMask 2 exMargs 1 (3 / 2) (4 / 5) 1 exS_wf exMask_wf rfl rfl rfl
+  (by decide) exS_contract exS_contract2 (by rw [exS_var]; norm_num)
+example := dimension_distribution_mask_eq_zero_one exS exMask 2 exMargs 1 (3 / 2) (4 / 5) 1 exS_wf exMask_wf rfl rfl
+  (fun u hu => by obtain ⟨a, b, rfl⟩ := exBox u hu; rw [exMask_dense]; split <;> simp)
+  rfl (by decide) exS_contract exS_contract2 (by rw [exS_var]; norm_num)
+/-- the mask `tn.true(2)` has `M(∅) = 1`, and the restricted distribution still sums to 1 -/
+example := dimension_distribution_mask_sum exS exMask1 exMargs 1 (3 / 2) (4 / 5) 1 exS_wf exMask1_wf rfl rfl rfl
+  exS_contract exS_contract2 (by rw [exS_var]; norm_num) (by rw [exMask1_varsum]; norm_num)
+
+end dimension_mask
 
 end TN.C09
